@@ -123,6 +123,17 @@ def gen_case(g, prop):
                 cm = [dict(name=f, content=T.file_content(g, f)) for f in g.sample(['helpers.cmake', 'Conf.CMake', 'zz.cmake'], g.randint(1, 2))]
                 children.append(dict(name=nm, children=cm + [dict(name='keep.txt', content='unrelated')]))
                 st['auto_exclude'] = True; st['recursive'] = True; case[slot] = 'nested'; case['nested_name'] = nm
+    if prop == 'C12' and case['output'] in ('abs', 'rel') and g.random() < 0.4:
+        # a history: one or two further runs into the SAME output directory, each with naming settings of its own (check_case)
+        case['history'] = [dict(prefix=g.choice([None, 'PFX', 'p.q', 'Beta']), sep=g.choice(['.', '/', '::', '-', 'sub']), ext_titles=g.random() < 0.5,
+                                ext_modules=g.random() < 0.5, headers=g.choice([None, ['=', '*'], ['~'], ['+', '-', '^']])) for _ in range(g.choice([1, 1, 2]))]
+    gc = random.Random('companions' + repr(case))      # a stream of its own: callers go on drawing from g (alias suite)
+    if prop == 'C14' and gc.random() < 0.35:
+        # further directories, documented before and after this one through the same Settings object (several_inputs)
+        nms = gc.sample([n for n in ['in', 'my.proj', 'd-x', 'Src', 'zz2', 'Lib'] if n != dname], gc.choice([1, 1, 2]))
+        oth = [dict(kind='dir', name=n, spelled=gc.choice(['abs', 'abs', 'rel', 'dot']), children=T.gen_dir(gc, 1, max_depth=3, want_cmake=True)) for n in nms]
+        k = gc.randint(0, len(oth))
+        case['companions'] = dict(before=oth[:k], after=oth[k:], one_output=gc.random() < 0.4)
     return case
 
 
@@ -193,6 +204,98 @@ def run_layout(sb_dir, case, variant, **kw):
     return r
 
 
+def judge_names(case, inp, order, files):
+    """C12 on one output tree: title frame, module directive and module doccomment of every page of `order`, under case['settings']"""
+    st = case['settings']; vios = []
+    hc = (st.get('headers') or ['#'])[0]
+    for relf in order:
+        page = files.get(os.path.join(*(relf[:-1] + ['.'.join(relf[-1].split('.')[:-1]) + '.rst'])))
+        if page is None: continue
+        content = find_content(inp['children'], relf) if inp['kind'] == 'dir' else inp['content']
+        title, mod = expected_names(case, inp, '/'.join(relf))
+        m = re.match(r'[ \t]*#\[\[\[\s*@module([^\n]*)\n', content)
+        named = m.group(1).strip() if m else None
+        if named: title = mod = named
+        lines = page.split('\n')
+        want = ['', hc * len(title), title, hc * len(title), '', '.. module:: ' + mod]
+        if lines[:6] != want or sum(1 for l in lines if l.startswith('.. module::')) != 1:
+            vios.append(dict(kind='title/module frame', file=relf, expected=want, real=lines[:7])); break
+        if m is not None:
+            body = [l.strip() for l in content.split('\n')[1:] if l.strip().startswith('# ')]
+            if lines[6:8] != ['', '   ' + body[0][2:]]:
+                vios.append(dict(kind='module doccomment text not under the module directive', file=relf, real=lines[6:9])); break
+    if len(case['inputs']) > 1 and 'zz_only.rst' in files:
+        want_t = (st.get('prefix') if st.get('prefix') is not None else 'zz2') + st.get('sep', '.') + ('zz_only.cmake' if st.get('ext_titles') else 'zz_only')
+        if T.title_of(files['zz_only.rst']) != want_t:
+            vios.append(dict(kind="a second input directory's page does not carry its own default prefix", expected=want_t, real=T.title_of(files['zz_only.rst'])))
+    titles = {}
+    for p, text in files.items():
+        if p.endswith('index.rst'): continue
+        titles.setdefault(T.title_of(text), []).append(p)
+    dup = {t: ps for t, ps in titles.items() if len(ps) > 1 and not any('named.' in (t or '') for _ in [0])}
+    if dup: vios.append(dict(kind='different files share a title', titles=dup))
+    return vios
+
+
+def judge_indexes(st, inp, exp, files, closure=True):
+    """C14 on one output tree: toctree and title of every index.rst that `exp` (T.spec_walk) names; with `closure`, every entry has a
+    generated target and every file is reachable from the top index, on the real output alone"""
+    vios = []
+    pre = st.get('prefix') if st.get('prefix') is not None else inp['name']
+    for p, toc in exp.items():
+        if toc is None or p not in files: continue
+        got = T.parse_toctree(files[p])
+        if got != toc: vios.append(dict(kind='toctree entries', index=p, expected=toc, real=got)); break
+        d = os.path.dirname(p)
+        want_title = pre if d == '' else pre + st.get('sep', '.') + d
+        if T.title_of(files[p]) != want_title:
+            vios.append(dict(kind='index title', index=p, expected=want_title, real=T.title_of(files[p]))); break
+    if not closure: return vios
+    reach = set(); todo = ['index.rst'] if 'index.rst' in files else []
+    dangling = []
+    while todo:
+        p = todo.pop()
+        if p in reach: continue
+        reach.add(p)
+        for e in (T.parse_toctree(files[p]) or []):
+            tgt = os.path.normpath(os.path.join(os.path.dirname(p), e if e.endswith('/index.rst') else e + '.rst'))
+            if tgt not in files: dangling.append((p, e))
+            elif tgt.endswith('index.rst'): todo.append(tgt)
+            else: reach.add(tgt)
+    if dangling: vios.append(dict(kind='toctree entry without a generated target', entries=dangling[:5]))
+    unreachable = sorted(set(files) - reach)
+    if unreachable and 'index.rst' in files: vios.append(dict(kind='page not reachable from the top index', pages=unreachable[:5]))
+    return vios
+
+
+def several_inputs(case, inp, sb, drv, out, rec):
+    """C14: the case's directory together with its `companions` in ONE run (one Settings object, as in a main() call with several inputs
+    or an API user's loop), every input into an output directory of its own or all into one; the indexes of EVERY input are judged as
+    those of a run of its own.  In one output directory a later input overwrites index.rst files of an earlier one (outside C14): an
+    index is judged for the input that wrote it last, and closure is left to the runs with separate directories"""
+    co = case['companions']; st = case['settings']
+    c2 = {k: v for k, v in case.items() if k not in ('companions', 'nested_name')}
+    c2.update(inputs=co['before'] + [inp] + co['after'], output='abs', patterns=[pt for pt in case.get('patterns', []) if '{INP}' not in pt])
+    if not co['one_output']: c2['outputs'] = ['+out%d+' % k for k in range(len(c2['inputs']))]
+    r = T.run_real(sb.dir, c2, variant='several')
+    out.traces_validated += 1; out.dist['several-inputs:' + ('one-output' if co['one_output'] else 'own-outputs')] += 1
+    names = [i['name'] for i in c2['inputs']]
+    if r['status'] != 'ok': return [dict(kind='diagnostic-free input failed', status=r['status'], inputs_of_the_run=names)]
+    vios = []; later = set()
+    for k in reversed(range(len(names))):
+        ik = c2['inputs'][k]; excl, spec = excl_fn(c2, r['abs_inputs'][k]); exp = {}
+        if not spec.match_file(os.path.join(r['abs_inputs'][k], '')): T.spec_walk(ik['children'], [], excl, st['recursive'], st['auto_exclude'], exp, [])
+        if co['one_output']: vs = judge_indexes(st, ik, {p: t for p, t in exp.items() if p not in later}, r['files'], closure=False); later |= set(exp)
+        else: vs = judge_indexes(st, ik, exp, r['files_by_output'][c2['outputs'][k]])
+        vios += [dict(v, input=k, inputs_of_the_run=names, outputs='one directory' if co['one_output'] else 'one directory per input') for v in vs]
+    if co['one_output']:
+        mo = drv.run([T.model_request(c2, r['abs_inputs'])])[0]; mfiles = T.model_files(mo)
+        if mo['status'] != r['status'] or mfiles != r['files']:
+            diff = sorted(set(mfiles) ^ set(r['files'])) or [p for p in mfiles if mfiles[p] != r['files'].get(p)]
+            out.disagreements.append(dict(rec, detail=dict(kind='several inputs in one run', inputs_of_the_run=names, paths=diff[:6])))
+    return vios
+
+
 def check_case(prop, case, sb, drv, key, out, n_orders=3):
     g = random.Random(repr(key) + 'orders')
     tgt = case.get('target', 0)
@@ -242,30 +345,8 @@ def check_case(prop, case, sb, drv, key, out, n_orders=3):
                 if page is None or body_after_module(page) != body_after_module(lone):
                     vios.append(dict(kind='page differs from the lone-file page', file=relf, page=page, lone=lone)); break
         if prop == 'C14' and inp['kind'] == 'dir':
-            pre = st.get('prefix') if st.get('prefix') is not None else inp['name']
-            for p, toc in exp.items():
-                if toc is None or p not in files: continue
-                got = T.parse_toctree(files[p])
-                if got != toc: vios.append(dict(kind='toctree entries', index=p, expected=toc, real=got)); break
-                d = os.path.dirname(p)
-                want_title = pre if d == '' else pre + st.get('sep', '.') + d
-                if T.title_of(files[p]) != want_title:
-                    vios.append(dict(kind='index title', index=p, expected=want_title, real=T.title_of(files[p]))); break
-            # closure and reachability on the REAL output alone
-            reach = set(); todo = ['index.rst'] if 'index.rst' in files else []
-            dangling = []
-            while todo:
-                p = todo.pop()
-                if p in reach: continue
-                reach.add(p)
-                for e in (T.parse_toctree(files[p]) or []):
-                    tgt = os.path.normpath(os.path.join(os.path.dirname(p), e if e.endswith('/index.rst') else e + '.rst'))
-                    if tgt not in files: dangling.append((p, e))
-                    elif tgt.endswith('index.rst'): todo.append(tgt)
-                    else: reach.add(tgt)
-            if dangling: vios.append(dict(kind='toctree entry without a generated target', entries=dangling[:5]))
-            unreachable = sorted(set(files) - reach)
-            if unreachable and 'index.rst' in files: vios.append(dict(kind='page not reachable from the top index', pages=unreachable[:5]))
+            vios += judge_indexes(st, inp, exp, files)
+            if case.get('companions'): vios += several_inputs(case, inp, sb, drv, out, rec)
         if prop == 'C15' and inp['kind'] == 'dir' and st['recursive'] and not st['auto_exclude']:
             # processed iff neither the file nor a directory on the way is excluded (independent pathspec calls)
             def visit(ch, rel, alive):
@@ -280,33 +361,17 @@ def check_case(prop, case, sb, drv, key, out, n_orders=3):
             root_alive = not spec.match_file(os.path.join(real['abs_inputs'][0], ''))
             visit(inp['children'], [], root_alive)
         if prop == 'C12':
-            hc = (st.get('headers') or ['#'])[0]
-            for relf in order:
-                page = files.get(os.path.join(*(relf[:-1] + ['.'.join(relf[-1].split('.')[:-1]) + '.rst'])))
-                if page is None: continue
-                content = find_content(inp['children'], relf) if inp['kind'] == 'dir' else inp['content']
-                title, mod = expected_names(case, inp, '/'.join(relf))
-                m = re.match(r'[ \t]*#\[\[\[\s*@module([^\n]*)\n', content)
-                named = m.group(1).strip() if m else None
-                if named: title = mod = named
-                lines = page.split('\n')
-                want = ['', hc * len(title), title, hc * len(title), '', '.. module:: ' + mod]
-                if lines[:6] != want or sum(1 for l in lines if l.startswith('.. module::')) != 1:
-                    vios.append(dict(kind='title/module frame', file=relf, expected=want, real=lines[:7])); break
-                if m is not None:
-                    body = [l.strip() for l in content.split('\n')[1:] if l.strip().startswith('# ')]
-                    if lines[6:8] != ['', '   ' + body[0][2:]]:
-                        vios.append(dict(kind='module doccomment text not under the module directive', file=relf, real=lines[6:9])); break
-            if len(case['inputs']) > 1 and 'zz_only.rst' in files:
-                want_t = (st.get('prefix') if st.get('prefix') is not None else 'zz2') + st.get('sep', '.') + ('zz_only.cmake' if st.get('ext_titles') else 'zz_only')
-                if T.title_of(files['zz_only.rst']) != want_t:
-                    vios.append(dict(kind="a second input directory's page does not carry its own default prefix", expected=want_t, real=T.title_of(files['zz_only.rst'])))
-            titles = {}
-            for p, text in files.items():
-                if p.endswith('index.rst'): continue
-                titles.setdefault(T.title_of(text), []).append(p)
-            dup = {t: ps for t, ps in titles.items() if len(ps) > 1 and not any('named.' in (t or '') for _ in [0])}
-            if dup: vios.append(dict(kind='different files share a title', titles=dup))
+            vios += judge_names(case, inp, order, files)
+            if case.get('history') and case.get('output') in ('abs', 'rel'):
+                # several runs into ONE output directory, the naming settings changed in between (the sources are not touched): after
+                # every run every page carries the title, frame and module name that follow from the settings of THAT run
+                for k, h in enumerate([{}] + case['history']):
+                    ck = copy.deepcopy(case); ck['settings'].update(h)
+                    rk = T.run_real(sb.dir, ck, variant='hist', keep_inputs=k > 0)
+                    out.traces_validated += 1; out.dist['history-steps'] += 1
+                    vk = [dict(kind='diagnostic-free input failed', status=rk['status'])] if rk['status'] != 'ok' else judge_names(ck, ck['inputs'][tgt], order, rk['files'])
+                    vios += [dict(v, run='%d of %d into one output directory' % (k + 1, len(case['history']) + 1), settings_of_the_run=ck['settings']) for v in vk]
+                    if vk: break
     if prop == 'C15' and inp['kind'] == 'dir' and real['status'] == 'ok':
         # listing-order invariance: the same tree under other orders must give the same output tree
         for k in range(n_orders):
